@@ -24,6 +24,7 @@ func genAll() {
 	genErrProp()
 	genSaveSrc()
 	genAccess()
+	genResolveSrc()
 }
 
 // ---------------------------------------------------------------------------------
